@@ -500,6 +500,20 @@ func TestC45(t *testing.T) {
 		if wire == nil {
 			return
 		}
+		if kind == "sessionState" && len(v.MasterSecret) > 0 {
+			// sessionState also travels sealed in a ticket: what decryptTicket parses must stay equal to
+			// what was marshalled while later tickets are parsed (the parsed slices are kept by the handshake)
+			other, _ := c45Gen(rt, "sessionState")
+			other.MasterSecret = patternBytes(len(v.MasterSecret)+8, 0xEE)
+			rec.Case("retain:"+hex.EncodeToString(wire), true, "sealed-state-retained")
+			diff, pan := ticketRetention(v, []*hs{other, other})
+			if pan != nil {
+				rec.Fail(rt, "unmarshal-panic/sessionState", map[string]any{"message": v}, "decryptTicket panicked: %v", pan)
+			} else if diff != "" {
+				rec.Fail(rt, "sessionstate-aliases-shared-buffer", map[string]any{"kind": "sessionState-sealed", "message": v, "later": other},
+					"sessionState parsed from a sealed ticket no longer equals the marshalled value after another ticket was parsed: %s", diff)
+			}
+		}
 		hasSig := v.HasSignatureAndHash
 		n := rapid.IntRange(1, 6).Draw(rt, "nmut")
 		for i := 0; i < n; i++ {
